@@ -85,7 +85,13 @@ def _wrap(t):
     return SymBool(t)
 
 
+def _isnan(v):
+    return isinstance(v, (float, numpy.floating)) and v != v
+
+
 def _arith(a, b, op):
+    if _isnan(a) or _isnan(b):
+        return float("nan")  # IEEE: NaN propagates through + - * /
     ta, tb = term(a), term(b)
     if ta.sort() != tb.sort():
         ta, tb = _real(ta), _real(tb)
@@ -170,9 +176,11 @@ class _SymNum(_Sym):
             return ssqrt(self)
         raise SXError(f"unsupported power {o!r}")
 
-    def _cmp(self, o, op):
+    def _cmp(self, o, op, nan_result=False):
         if _opaque(o):
             return NotImplemented
+        if _isnan(o):
+            return nan_result
         ta, tb = term(self), term(o)
         if ta.sort() != tb.sort():
             ta, tb = _real(ta), _real(tb)
@@ -198,7 +206,7 @@ class _SymNum(_Sym):
     def __ne__(self, o):
         if o is None or isinstance(o, str):
             return True
-        return self._cmp(o, lambda x, y: x != y)
+        return self._cmp(o, lambda x, y: x != y, nan_result=True)
 
     __hash__ = _Sym.__hash__
 
@@ -210,6 +218,22 @@ class _SymNum(_Sym):
 
     def conjugate(self):
         return self
+
+    # numpy scalars answer these too (0-d behaviour)
+    def sum(self, *a, **k):
+        return self
+
+    def mean(self, *a, **k):
+        return self
+
+    def item(self):
+        return self
+
+    def copy(self):
+        return self
+
+    ndim = 0
+    shape = ()
 
     @property
     def real(self):
@@ -349,6 +373,12 @@ class SymBool(_Sym):
 
 
 def sdiv(a, b):
+    if _isnan(a) or _isnan(b):
+        return float("nan")
+    return _sdiv(a, b)
+
+
+def _sdiv(a, b):
     """a / b.  A concrete divisor multiplies by the exact reciprocal; a symbolic divisor is
     eliminated: fresh q with q*b = a under b != 0 (a conservative extension)."""
     e = cur()
